@@ -728,6 +728,29 @@ def exp_i(phi):
     return out
 
 
+def phase_axioms(max_keys=64):
+    """Functional-consistency (Ackermann) axioms for the uninterpreted unit pairs:
+    equal angles give equal pairs, opposite angles conjugate pairs, zero angle gives (1, 0)."""
+    items = []
+    for key, (c, s) in CTX.phase.items():
+        if key and key[0] == "opaque":
+            ang = CTX.phase_terms[key]
+        else:
+            ang = z3.Sum(*[z3.RealVal(str(q)) * z3.Real(n) for n, q in key]) if len(key) > 1 else z3.RealVal(str(key[0][1])) * z3.Real(key[0][0])
+        items.append((ang, c, s))
+    ax = []
+    for ang, c, s in items:
+        ax.append(z3.Implies(ang == 0, z3.And(c == 1, s == 0)))
+    if len(items) <= max_keys:
+        for i in range(len(items)):
+            for j in range(i + 1, len(items)):
+                a1, c1, s1 = items[i]
+                a2, c2, s2 = items[j]
+                ax.append(z3.Implies(a1 == a2, z3.And(c1 == c2, s1 == s2)))
+                ax.append(z3.Implies(a1 == -a2, z3.And(c1 == c2, s1 == -s2)))
+    return ax
+
+
 # --------------------------------------------------------------------------------------
 _opaque_decls = {}
 
